@@ -44,6 +44,8 @@ pub struct PeriodicStore {
     cleanup_interval: Duration,
     // Track number of expired entries
     expired_count: usize,
+    #[cfg(throttlecrab_verif)]
+    verif_cleanups: u64,
 }
 
 /// Builder for configuring a PeriodicStore
@@ -88,6 +90,8 @@ impl PeriodicStore {
             next_cleanup: SystemTime::now() + Duration::from_secs(DEFAULT_CLEANUP_INTERVAL_SECS),
             cleanup_interval: Duration::from_secs(DEFAULT_CLEANUP_INTERVAL_SECS),
             expired_count: 0,
+            #[cfg(throttlecrab_verif)]
+            verif_cleanups: 0,
         }
     }
 
@@ -107,6 +111,8 @@ impl PeriodicStore {
             next_cleanup: SystemTime::now() + cleanup_interval,
             cleanup_interval,
             expired_count: 0,
+            #[cfg(throttlecrab_verif)]
+            verif_cleanups: 0,
         }
     }
 
@@ -138,6 +144,10 @@ impl PeriodicStore {
             });
             self.expired_count = before_count.saturating_sub(self.data.len());
             self.next_cleanup = now + self.cleanup_interval;
+            #[cfg(throttlecrab_verif)]
+            {
+                self.verif_cleanups += 1;
+            }
         }
     }
 }
@@ -255,5 +265,32 @@ impl PeriodicStoreBuilder {
     /// Build the PeriodicStore with the configured settings
     pub fn build(self) -> PeriodicStore {
         PeriodicStore::with_config(self.capacity, self.cleanup_interval)
+    }
+}
+
+/// Verification hooks (compiled only with `--cfg throttlecrab_verif`)
+#[cfg(throttlecrab_verif)]
+impl PeriodicStore {
+    /// Number of physically stored entries
+    pub fn verif_len(&self) -> usize {
+        self.data.len()
+    }
+
+    /// Number of cleanup sweeps performed so far
+    pub fn verif_cleanups(&self) -> u64 {
+        self.verif_cleanups
+    }
+
+    /// Scheduling state: [next_cleanup (ns since epoch), cleanup_interval (ns), expired_count]
+    pub fn verif_snapshot(&self) -> Vec<i128> {
+        let next = match self.next_cleanup.duration_since(std::time::UNIX_EPOCH) {
+            Ok(d) => d.as_nanos() as i128,
+            Err(e) => -(e.duration().as_nanos() as i128),
+        };
+        vec![
+            next,
+            self.cleanup_interval.as_nanos() as i128,
+            self.expired_count as i128,
+        ]
     }
 }
